@@ -10,8 +10,8 @@ RULE = ('seeded random programs in which add_* / assignment calls of every kind 
         'every attribute class, value outside an enumeration, invalid reference, non-str name, bad origin reference type, duplicate '
         'dataset name, unsupported cast dtype, non-array data, bad frame channel lists) before and between valid calls of the same '
         'name; a rejected add_origin (with and without explicit reference) as the first origin call, objects around it, then the defining origin; compared with the history without the rejected calls. Distinct by (program index, number of rejected calls).')
-ASSUMPTIONS = ['the order of sets in the file is not compared: a rejected call may leave an empty set behind, which is never written '
-               'but takes a position in the registry (DESIGN: C20)']
+ASSUMPTIONS = ['the order of sets of DIFFERENT types in the file is not compared; the position of a set left empty by a rejected call is '
+               'the known finding D22 (it can change the defining origin), replayed on every run']
 PARTIAL = ('failed WRITES: the model shows which mutations a failed write leaves (derived attributes, merged data); the clause '
            '"once the cause is removed the same file as a fresh specification" is exercised by correspondence only')
 
@@ -53,6 +53,19 @@ def run(ctx):
     for tkey in specgen.SET_KINDS:
         for inner in (apistream.reject_kinds(tkey) or [None])[: (2 if ctx.tier == 'quick' else 50)]:
             sweep.append(apistream.gen_sandwich(rng, tkey, inner)[0])
+    R0 = specgen
+    sweep.append([{'op': 'newfile', 'ident': 'MAIN-STORAGE-UNIT', 'seq': 1, 'vrl': 8192},
+                  {'op': 'lf', 'fh_id': R0.r_str('H'), 'fh_seq': R0.r_int(1)},
+                  {'op': 'origin', 'lf': 0, 'name': R0.r_int(3), 'set_name': None, 'origin': None, '_fh_id': 'H', 'kw': {}},      # D22 witness
+                  {'op': 'origin', 'lf': 0, 'name': R0.r_str('A'), 'set_name': 'S', 'origin': None, '_fh_id': 'H',
+                   'kw': {'file_set_number': R0.r_int(1), 'creation_time': R0.r_str('2020/01/01 00:00:00')}},
+                  {'op': 'origin', 'lf': 0, 'name': R0.r_str('B'), 'set_name': None, 'origin': R0.r_int(7), '_fh_id': 'H',
+                   'kw': {'file_set_number': R0.r_int(1), 'creation_time': R0.r_str('2020/01/01 00:00:00')}},
+                  {'op': 'add', 'lf': 0, 'type': 'zone', 'name': R0.r_str('Z'), 'set_name': None, 'origin': None, 'kw': {}},
+                  {'op': 'channel', 'lf': 0, 'name': R0.r_str('CH'), 'set_name': None, 'origin': None, 'kw': {},
+                   'data': {'dtype': 'float64', 'rows': 3, 'width': None, 'seed': 9}},
+                  {'op': 'frame', 'lf': 0, 'name': R0.r_str('F'), 'set_name': None, 'origin': None, 'kw': {}, 'channels': R0.r_list([R0.r_ref(4)])},
+                  {'op': 'write'}])
     for explicit in (None, 40, 1):
         for before in (True, False):
             for second in (None, 7):
@@ -96,7 +109,21 @@ def run(ctx):
                 for key in set(sa) | set(sb):
                     if sa.get(key) != sb.get(key):
                         diff.append({'set': key, 'with_rejected_calls': [x[0] for x in sa.get(key, [])], 'without': [x[0] for x in sb.get(key, [])]})
-            ctx.violation('rejected-call-left-a-trace', {**det, 'differences': diff[:5]})
+            # known finding D22: the only residue the model (= the implementation on this program, K-api agreed on both
+            # histories) has for a rejected call is the empty set it registered (theorem C20_reject: same_content); a
+            # difference is that residue when some rejected call was the first creating call for its (type, set name)
+            seen, first_for_set = set(), False
+            for s0, o0 in zip(prog, r['outs']):
+                if s0['op'] in ('origin', 'add', 'channel', 'frame'):
+                    key = (s0.get('lf', 0), s0.get('type') or s0['op'], s0.get('set_name') or None)
+                    if key not in seen and o0[0] == 'err':
+                        first_for_set = True
+                    seen.add(key)
+                elif s0['op'] == 'newfile':
+                    seen = set()
+            explained = first_for_set and r['agree'] and r2['agree']
+            ctx.violation('rejected-call-left-a-trace', {**det, 'differences': diff[:5]},
+                          finding_key='D22-empty-set-position' if explained else None)
         if k % 11 == 0:
             ctx.sample({'stream': 'K-reject', 'rejected_calls': nrej,
                         'rejected': [(s['op'], s.get('type'), o[1]) for s, o in zip(prog, r['outs']) if o[0] == 'err'][:6]})
